@@ -1288,6 +1288,15 @@ func main() {
 			panic(err)
 		}
 	}
+	// the VXLAN resolver slice (IPv4 + IPv6): one case for every three graph cases
+	for i := 0; i < *n/3; i++ {
+		if *only >= 0 {
+			break
+		}
+		if err := enc.Encode(vxCase(*seed, i)); err != nil {
+			panic(err)
+		}
+	}
 	_ = enc.Encode(map[string]any{"stats": map[string]int{
 		"events": st.events, "flushes": st.flushes, "flush_points_compared": st.checkpoints, "reverts": st.reverts, "duplicates": st.dups,
 		"spurious_deletes": st.spuriousDel, "deletes_while_referenced": st.delRef,
